@@ -517,6 +517,19 @@ def execute(plan):
             probes["second_instance_of_a_class_offered"] = 1
             if after != before:
                 raise OracleFailure("C15.stack", f"a second instance of the class of {first.name} (same function) was offered: the stack went from {[n for n, _ in before]} to {[n for n, _ in after]}", {"what": "same-class-again"})
+        # an interface added at a stated position of the stack (index 0: it goes first)
+        if sims:
+            from sim import armiboot as _ab
+
+            extra_cls = _ab.make_actor_class({"name": "simfront", "function": "simfrontf"})
+            front = extra_cls(o.r, o.cs)
+            before = [i.name for i in o.interfaces]
+            o.addInterface(front, index=plan["seed"] % 2, enabled=False)
+            after = [i.name for i in o.interfaces]
+            want = before[: plan["seed"] % 2] + ["simfront"] + before[plan["seed"] % 2 :]
+            probes["interface_added_at_a_stated_position"] = 1
+            if after != want:
+                raise OracleFailure("C15.stack", f"an interface was added with index={plan['seed'] % 2}: the stack went from {before} to {after}", {"what": "index"})
         # ---------------- restart
         rs = cfg.get("restart")
         if rs:
